@@ -625,6 +625,24 @@ impl Eng {
             ("wrong_nonce", ct.clone(), Some(aad.clone()), key.clone(), flip(&nonce, 0), Some(false)),
             ("wrong_key", ct.clone(), Some(aad.clone()), flip(&key, 0), nonce.clone(), Some(false)),
         ];
+        // a tag that is genuinely valid for the empty plaintext (made with the openssl crate directly,
+        // not through a provider under test): whether 0-byte messages are allowed is each library's
+        // business, but all three must answer alike
+        {
+            use openssl::symm::{encrypt_aead, Cipher};
+            let cipher = match (sp.nk, cs) {
+                (_, 3) | (_, 6) => Some(Cipher::chacha20_poly1305()),
+                (16, _) => Some(Cipher::aes_128_gcm()),
+                (32, _) => Some(Cipher::aes_256_gcm()),
+                _ => None,
+            };
+            if let Some(cipher) = cipher {
+                let mut tag = vec![0u8; 16];
+                if encrypt_aead(cipher, &key, Some(&nonce), &aad, &[], &mut tag).is_ok() {
+                    cases.push(("ct_tag_only_valid_for_empty_plaintext", tag, Some(aad.clone()), key.clone(), nonce.clone(), None));
+                }
+            }
+        }
         if self.tier == Tier::Mem {
             cases.truncate(3);
         }
